@@ -112,6 +112,10 @@ def run_c02(res, tier):
     import moves, passes
     moves.run_moves(res, ast)
     passes.run_pass_kill(res, ast)
+    if tier == "thorough":
+        import mirrules
+        from mir import load_facts
+        mirrules.run_release_noop(res, load_facts(release=True))
     return {"bc_effect": {k: (len(v) if isinstance(v, set) else v) for k, v in (st or {}).items()}}
 
 
@@ -126,6 +130,9 @@ def run_c06(res, tier):
     passes.run_c11(res, ast, rules=("WINDOW-BY-CONSTRUCTION",))
     import rt
     rt.run_tape_rules(res, ast, rules=("BOUNDS-GUARD", "TAPE-PAIR"))
+    import mirrules as _mr
+    from mir import load_facts as _lf
+    _mr.run_tape_pair_mir(res, _lf())
     asmtab.run_asm_table(res, ast)
     asmtab.run_sel_width(res, ast)
     import mirrules
@@ -317,6 +324,7 @@ def run_c09(res, tier):
     fx = load_facts()
     mirrules.run_alloc_null_mir(res, fx)
     mirrules.run_callgraph_rules(res, fx)
+    mirrules.run_tape_pair_mir(res, fx)
     return {}
 
 
